@@ -365,7 +365,9 @@ impl Ord for Uri {
 
 impl Hash for Uri {
 	fn hash<H: hash::Hasher>(&self, state: &mut H) {
-		self.parts().hash(state)
+		// Must agree with the reference type's hash, since `Borrow` is
+		// implemented between them.
+		self.as_uri_ref().hash(state)
 	}
 }
 
